@@ -71,11 +71,13 @@ copyreg.pickle(types.MethodType, _pickle_method, _unpickle_method)
 ###################################################################
 
 def ignore_aliases(data):
+    # scalars must be tested first: len() of a number raises TypeError,
+    # which used to skip the scalar test altogether
+    if data is None or isinstance(data, (str, bool, int, float)):
+        return True
     try:
         # numpy arrays no longer want to be compared to None, so instead check for a none by looking for if it is an instance of NoneType
-        if data is None or len(data) == 0:
-            return True
-        if isinstance(data, (str, bool, int, float)):
+        if len(data) == 0:
             return True
     except TypeError as e:
         pass
